@@ -72,6 +72,19 @@ class Sched:
         self.errors: List[tuple] = []  # (task name, exception) that escaped a task
         self.order: Optional[Callable[[Deque[Task]], None]] = None
         self.max_steps = 200000
+        # trio semantics: every operation on a trio primitive is a checkpoint, also when it does not have
+        # to wait (Event.wait on a set event, channel send/receive, lock acquire, stream send)
+        self.checkpoints = False
+
+    async def checkpoint(self) -> None:
+        """Let every other ready task run once (no-op unless trio semantics are switched on)."""
+        if not self.checkpoints:
+            return
+
+        def reg(task: Task) -> None:
+            self.ready.append(task)
+
+        await _Park(reg)
 
     # -- tasks
     def spawn(self, coro, name: str = "") -> Task:
@@ -186,6 +199,7 @@ class Sched:
 
             async def wait(self) -> None:
                 if self._set:
+                    await sched.checkpoint()
                     return
 
                 def reg(task: Task) -> None:
@@ -229,6 +243,7 @@ class Queue:
             await _Park(reg)
         self.items.append(item)
         self._wake(self.getters)
+        await self.sched.checkpoint()
 
     async def get(self):
         while not self.items:
@@ -240,6 +255,7 @@ class Queue:
             await _Park(reg)
         item = self.items.popleft()
         self._wake(self.putters)
+        await self.sched.checkpoint()
         return item
 
 
